@@ -15,6 +15,8 @@ C04:
   and FLD a b ra rb     or FLD a b ra rb
   tobitsp p signed(0|1) x l             -> "b0,b1,.."
   liftin FLD q v    outconv FLD q a (-> int or AssertionError)    liftdeg q m     islifted q m t
+  lifted q <cmd> FLD ...                operands/results are ints of the subfield GF(q) (liftIn / outConv); masks and
+                                        opened values stay raw elements of FLD
 C06:
   conv1 S T x r rModf rDivf rModb rDivb        S, T ::= isFld(0|1) p signed(0|1) bitLength frac
                                         -> "truncOpened opened modOpened result"   ("-" = none)
@@ -46,13 +48,15 @@ def parseElems {α} (c : Codec α) (s : String) : Option (List α) :=
 def showElems {α} (c : Codec α) (l : List α) : String :=
   if l.isEmpty then "_" else ";".intercalate (l.map c.show_)
 
-def showOpened {α} (c : Codec α) (r : List α × Option α) : String :=
-  showElems c r.1 ++ "|" ++ (match r.2 with | some v => c.show_ v | none => "loop")
+def showOpened {α} (c co : Codec α) (r : List α × Option α) : String :=
+  showElems co r.1 ++ "|" ++ (match r.2 with | some v => c.show_ v | none => "loop")
 
 def parseBits (s : String) : Option (List Nat) :=
   (parseNatList? s).bind (fun l => if l.all (· < 2) then some l else none)
 
-def runF {α} (F : Ops α) (c : Codec α) (cmd : String) (args : List String) : String :=
+/-- `c`: codec of the operands/results (for a lifted type: ints of the subfield through `liftIn`/`outConv`);
+`co`: codec of masks and opened values (always the raw field) -/
+def runF {α} (F : Ops α) (c co : Codec α) (cmd : String) (args : List String) : String :=
   match cmd, args with
   | "bop", [op, a, b] =>
     match c.parse a, c.parse b with
@@ -61,16 +65,16 @@ def runF {α} (F : Ops α) (c : Codec α) (cmd : String) (args : List String) : 
       else if op == "mul" then c.show_ (F.mul a b) else "bad-op"
     | _, _ => "bad-op"
   | "recip", [a, rs] =>
-    match c.parse a, parseElems c rs with
-    | some a, some rs => showOpened c (reciprocal F a rs)
+    match c.parse a, parseElems co rs with
+    | some a, some rs => showOpened c co (reciprocal F a rs)
     | _, _ => "bad-op"
   | "div", [a, b, rs] =>
-    match c.parse a, c.parse b, parseElems c rs with
-    | some a, some b, some rs => showOpened c (div F a b rs)
+    match c.parse a, c.parse b, parseElems co rs with
+    | some a, some b, some rs => showOpened c co (div F a b rs)
     | _, _, _ => "bad-op"
   | "pow", [a, n, rs] =>
-    match c.parse a, parseInt? n, parseElems c rs with
-    | some a, some n, some rs => showOpened c (pow F a n rs)
+    match c.parse a, parseInt? n, parseElems co rs with
+    | some a, some n, some rs => showOpened c co (pow F a n rs)
     | _, _, _ => "bad-op"
   | "iszero", [a] =>
     match c.parse a with
@@ -81,8 +85,8 @@ def runF {α} (F : Ops α) (c : Codec α) (cmd : String) (args : List String) : 
     | some a, some b => (match eq F a b with | some v => c.show_ v | none => "loop")
     | _, _ => "bad-op"
   | "izp", [a, r] =>
-    match c.parse a, c.parse r with
-    | some a, some r => let o := isZeroPublic F a r; s!"{c.show_ o.1} {showB o.2}"
+    match c.parse a, co.parse r with
+    | some a, some r => let o := isZeroPublic F a r; s!"{co.show_ o.1} {showB o.2}"
     | _, _ => "bad-op"
   | "xor", [a, b] =>
     match c.parse a, c.parse b with
@@ -130,31 +134,43 @@ def showOpt : Option Nat → String
   | some v => toString v
   | none => "-"
 
+/-- codec of a lifted type: ints of the subfield GF(q) in, `out_conv` out -/
+def liftedCodec {α} (F : Ops α) (q : Nat) : Codec α :=
+  ⟨fun s => (parseInt? s).map (liftIn F q), fun a => match outConv F q a with | some v => toString v | none => "AssertionError"⟩
+
+def runField (lift : Option Nat) (cmd : String) : List String → String
+  | "P" :: p :: args =>
+    match parseNat? p with
+    | some p => if p < 2 then "bad-op" else
+        let co : Codec Nat := ⟨fun s => (parseNat? s).bind (fun v => if v < p then some v else none), toString⟩
+        runF (primeOps p) (match lift with | some q => liftedCodec (primeOps p) q | none => co) co cmd args
+    | none => "bad-op"
+  | "B" :: m :: args =>
+    match parseNat? m with
+    | some m => if m < 2 then "bad-op" else
+        let co : Codec Nat := ⟨fun s => (parseNat? s).bind (fun v => if v < BinF.order m then some v else none), toString⟩
+        runF (binOps m) (match lift with | some q => liftedCodec (binOps m) q | none => co) co cmd args
+    | none => "bad-op"
+  | "X" :: p :: m :: args =>
+    match parseNat? p, parseNatList? m with
+    | some p, some m =>
+      if p < 2 || m.length < 2 || !(m.all (· < p)) || m.getLast? == some 0 then "bad-op"
+      else
+        let co : Codec (List Nat) :=
+          ⟨fun s => (polyCodec p).parse s |>.bind (fun l => if l.length < m.length then some l else none), showNatList⟩
+        runF (extOps p m) (match lift with | some q => liftedCodec (extOps p m) q | none => co) co cmd args
+    | _, _ => "bad-op"
+  | _ => "bad-op"
+
 def step (line : String) : String :=
   match tokens line with
-  | cmd :: "P" :: p :: args =>
-    if fieldCmds.contains cmd then
-      match parseNat? p with
-      | some p => if p < 2 then "bad-op" else
-          runF (primeOps p) ⟨fun s => (parseNat? s).bind (fun v => if v < p then some v else none), toString⟩ cmd args
-      | none => "bad-op"
-    else "bad-op"
-  | cmd :: "B" :: m :: args =>
-    if fieldCmds.contains cmd then
-      match parseNat? m with
-      | some m => if m < 2 then "bad-op" else
-          runF (binOps m) ⟨fun s => (parseNat? s).bind (fun v => if v < BinF.order m then some v else none), toString⟩ cmd args
-      | none => "bad-op"
-    else "bad-op"
-  | cmd :: "X" :: p :: m :: args =>
-    if fieldCmds.contains cmd then
-      match parseNat? p, parseNatList? m with
-      | some p, some m =>
-        if p < 2 || m.length < 2 || !(m.all (· < p)) || m.getLast? == some 0 then "bad-op"
-        else runF (extOps p m) ⟨fun s => (polyCodec p).parse s |>.bind (fun l => if l.length < m.length then some l else none),
-                               showNatList⟩ cmd args
-      | _, _ => "bad-op"
-    else "bad-op"
+  | "lifted" :: q :: cmd :: rest =>
+    match parseNat? q with
+    | some q => if q < 2 || !(fieldCmds.contains cmd) then "bad-op" else runField (some q) cmd rest
+    | none => "bad-op"
+  | cmd :: "P" :: rest => if fieldCmds.contains cmd then runField none cmd ("P" :: rest) else "bad-op"
+  | cmd :: "B" :: rest => if fieldCmds.contains cmd then runField none cmd ("B" :: rest) else "bad-op"
+  | cmd :: "X" :: rest => if fieldCmds.contains cmd then runField none cmd ("X" :: rest) else "bad-op"
   | ["tobitsp", p, sg, x, l] =>
     match parseNat? p, parseBool sg, parseNat? x, parseNat? l with
     | some p, some sg, some x, some l => showNatList (toBitsPrime p sg x l)
